@@ -98,16 +98,16 @@ Definition mv_last (m : list bool) (fs : list field) : list field := unpick m fs
 Definition overlap (m r : list bool) : bool :=
   existsb (fun p => fst p && snd p) (combine m r).
 
-(** [r] marks the reference element *)
-Definition mv_rel (after : bool) (m r : list bool) (fs : list field) : option (list field) :=
-  if overlap m r then None else
+(** [r] marks the reference element (exactly one, not among the moved ones:
+    [sp_plan] checks it, so the last case is never reached) *)
+Definition mv_rel (after : bool) (m r : list bool) (fs : list field) : list field :=
   let rest := unpick m (combine r fs) in
   let (a, b) := span (fun x => negb (fst x)) rest in
   match b with
-  | [] => None
   | x :: b' =>
-      Some (if after then map snd a ++ snd x :: pick m fs ++ map snd b'
-            else map snd a ++ pick m fs ++ snd x :: map snd b')
+      if after then map snd a ++ snd x :: pick m fs ++ map snd b'
+      else map snd a ++ pick m fs ++ snd x :: map snd b'
+  | [] => map snd a ++ pick m fs
   end.
 
 Fixpoint set_mask (m : list bool) (v : field) (fs : list field) : list field :=
@@ -123,53 +123,79 @@ Inductive pop :=
 | PSetF (k : key) (v : field)        (* the new field, as a whole element *)
 | PDel (k : key).
 
-(** the result and whether the operation may also be refused (negative index;
+(** what is to be done, decided from the NAMES of the fields alone *)
+Inductive plan :=
+| PlFirst (m : list bool) | PlLast (m : list bool)
+| PlRel (after : bool) (m r : list bool)
+| PlSort
+| PlAdd (v : field)
+| PlSet (m : list bool) (v : field)
+| PlDel (m : list bool).
+
+(** the plan and whether the operation may also be refused (negative index;
     (name, 0) for a name that is not there); [None]: the operation must be refused *)
-Definition sp_apply (o : pop) (fs : list field) : option (list field * bool) :=
+Definition sp_plan (o : pop) (fs : list field) : option (plan * bool) :=
   match o with
   | PFirst k =>
       match select_key WAll k fs with
-      | Some (m, neg) => Some (mv_first m fs, neg)
+      | Some (m, neg) => Some (PlFirst m, neg)
       | None => None
       end
   | PLast k =>
       match select_key WAll k fs with
-      | Some (m, neg) => Some (mv_last m fs, neg)
+      | Some (m, neg) => Some (PlLast m, neg)
       | None => None
       end
   | PBefore k r =>
       match select_key WAll k fs, select_key WFirst r fs with
       | Some (m, neg), Some (rm, neg') =>
-          match mv_rel false m rm fs with Some fs' => Some (fs', neg || neg') | None => None end
+          if overlap m rm then None else Some (PlRel false m rm, neg || neg')
       | _, _ => None
       end
   | PAfter k r =>
       match select_key WAll k fs, select_key WLast r fs with
       | Some (m, neg), Some (rm, neg') =>
-          match mv_rel true m rm fs with Some fs' => Some (fs', neg || neg') | None => None end
+          if overlap m rm then None else Some (PlRel true m rm, neg || neg')
       | _, _ => None
       end
-  | PSort => Some (sort_by (fun f => lower (f_name f)) fs, false)
+  | PSort => Some (PlSort, false)
   | PSetF k v =>
       let (n, idx) := key_parts k in
       if negb (has_name n v) then None else
       match occ_count n fs with
       | O =>
           match idx with
-          | None => Some (fs ++ [v], false)
-          | Some i => if (i =? 0)%Z then Some (fs ++ [v], true) else None
+          | None => Some (PlAdd v, false)
+          | Some i => if (i =? 0)%Z then Some (PlAdd v, true) else None
           end
       | S _ =>
           match select WAll n idx fs with
-          | Some (m, neg) => Some (set_mask m v fs, neg)
+          | Some (m, neg) => Some (PlSet m v, neg)
           | None => None
           end
       end
   | PDel k =>
       match select_key WAll k fs with
-      | Some (m, neg) => Some (unpick m fs, neg)
+      | Some (m, neg) => Some (PlDel m, neg)
       | None => None
       end
+  end.
+
+Definition run_plan (pl : plan) (fs : list field) : list field :=
+  match pl with
+  | PlFirst m => mv_first m fs
+  | PlLast m => mv_last m fs
+  | PlRel after m r => mv_rel after m r fs
+  | PlSort => sort_by (fun f => lower (f_name f)) fs
+  | PlAdd v => fs ++ [v]
+  | PlSet m v => set_mask m v fs
+  | PlDel m => unpick m fs
+  end.
+
+Definition sp_apply (o : pop) (fs : list field) : option (list field * bool) :=
+  match sp_plan o fs with
+  | Some (pl, neg) => Some (run_plan pl fs, neg)
+  | None => None
   end.
 
 (** the missing final newline *)
@@ -290,7 +316,7 @@ Definition s_cands (s : sdoc) (o : dop) : option (list (bool * sdoc)) :=
   | DInsert i p =>
       if (i <? 0)%Z then None
       else if (Z.to_nat i <? count_paras s)%nat then Some (insert_cands s (Z.to_nat i) p)
-      else Some (append_cands s p)
+      else Some (append_cands s p ++ insert_cands s (count_paras s) p)   (* anywhere after the last paragraph *)
   | DReappend j =>
       match split_para s j with
       | None => None
@@ -358,15 +384,15 @@ Fixpoint build_fields (kvs : list (str * str)) (fs : list field) : option (list 
 
 (** * Reading (name, i) back *)
 
+Fixpoint first_true (m : list bool) (q : nat) : option nat :=
+  match m with
+  | [] => None
+  | b :: m' => if b then Some q else first_true m' (S q)
+  end.
+
 (** position of the i-th field called [n] *)
 Definition occ_position (n : str) (i : nat) (fs : list field) : option nat :=
-  if (i <? occ_count n fs)%nat then
-    (fix idx (m : list bool) (q : nat) : option nat :=
-       match m with
-       | [] => None
-       | b :: m' => if b then Some q else idx m' (S q)
-       end) (mask_nth n i fs) O
-  else None.
+  if (i <? occ_count n fs)%nat then first_true (mask_nth n i fs) O else None.
 
 (** the answer to get_kvpair_element((n, i)): [Some q] = the element at position q,
     [None] = refused *)
